@@ -1,6 +1,6 @@
 (* C13 — Tree insertion yields valid trees keeping all original nodes and the new tree.
    Only statements + `exact`; proofs are in Grammar/InsertFacts.v and (proof extension)
-   Grammar/Insert{Direct,Track,Self,Ctx}More.v.  Model: Grammar/Insert.v
+   Grammar/Insert{Direct,Track,Self,Ctx,SelfAssert}More.v.  Model: Grammar/Insert.v
    (insert_tree and all its helpers of isla/existential_helpers.py; the grammar graph's answers
    are parameters `chain` / `pb`, fresh ids are 0).
 
@@ -37,11 +37,16 @@
    (C13_context_refuted).  The open finding is now characterised exactly: results are always
    `inserted_lossy`; they are `inserted` whenever K_ctx m = false; the witness is `inserted_lossy`
    and not `inserted` (C13_ctx_lossy_nonvacuous).
-   Still partial (stated, unproved; covered by the correspondence only): assertion-freedom of
-   insert_trees / compute_self_embeddings / compute_context_additions / add_to_result for masks
-   containing SELF_EMBEDDING or CONTEXT_ADDITION (the theorems for these masks are about the
-   returned trees, premise `... = Ok rs`). *)
-From ISLA Require Import Grammar Insert InsertFacts InsertDirectMore InsertTrackMore InsertSelfMore InsertCtxMore.
+     - C13_insert_tree_noctx_no_assert / C13_insert_tree_self_no_assert
+                               for every mask WITHOUT CONTEXT_ADDITION no assertion (insert_tree,
+                               compute_direct_embeddings, compute_self_embeddings, insert_trees, connect_trees,
+                               path_to_tree, add_to_result) can fire: the outcome is never AssertionError
+                               (oracle: chain_ok, chain_start, pb_ok; unique ids not needed)
+   Still partial (stated, unproved; covered by the correspondence only): assertion-freedom for masks
+   containing CONTEXT_ADDITION (compute_context_additions re-inserts host subtrees into a tree that
+   already contains ins); that the model's other exceptions (IndexErr of `[...][0]` / get_subtree,
+   StopIter of `next(...)`) cannot occur for SELF_EMBEDDING (proved only for DIRECT_EMBEDDING with chain_conn). *)
+From ISLA Require Import Grammar Insert InsertFacts InsertDirectMore InsertTrackMore InsertSelfMore InsertCtxMore InsertSelfAssertMore.
 From Coq Require Import List.
 Import ListNotations.
 
@@ -245,3 +250,28 @@ Example C13_ctx_lossy_nonvacuous :
     inserted_lossy ex_g ex_host ex_ins t /\ ~ inserted ex_g ex_host ex_ins t.
 Proof. exact ctx_lossy_nonvacuous. Qed.
 Print Assumptions C13_ctx_lossy_nonvacuous.
+
+(* --- assertion-freedom beyond DIRECT_EMBEDDING.  pb_ok: every chain of paths_between(A, B) starts
+   with A, ends with B, has >= 2 symbols, all nonterminals. *)
+Theorem C13_pb_ok_def : forall pb,
+  pb_ok pb <-> (forall A B ch, In ch (pb A B) ->
+                  exists rest, ch = A :: rest /\ rest <> [] /\ all_nt ch /\ last rest A = B).
+Proof. exact (fun pb => iff_refl _). Qed.
+Print Assumptions C13_pb_ok_def.
+
+Theorem C13_insert_tree_self_no_assert : forall g chain pb maxn ins host,
+  closed_g g -> pb_ok pb -> wf_tree g host -> wf_tree g ins ->
+  insert_tree g chain pb maxn SELF ins host <> Raise AssertErr.
+Proof. exact insert_tree_self_no_assert. Qed.
+Print Assumptions C13_insert_tree_self_no_assert.
+
+Theorem C13_insert_tree_noctx_no_assert : forall g chain pb maxn m ins host,
+  closed_g g -> chain_ok chain -> chain_start chain -> pb_ok pb ->
+  wf_tree g host -> wf_tree g ins -> K_ctx m = false ->
+  insert_tree g chain pb maxn m ins host <> Raise AssertErr.
+Proof. exact insert_tree_noctx_no_assert. Qed.
+Print Assumptions C13_insert_tree_noctx_no_assert.
+
+Example C13_pb_ok_satisfiable : pb_ok ex_pb.
+Proof. exact ex_pb_ok. Qed.
+Print Assumptions C13_pb_ok_satisfiable.
